@@ -143,6 +143,7 @@ def _cfg_fire(tier):
     out = []
     K = 12 if tier == 'quick' else 24
     plan = [('A', 100.0, dict(), 'none'), ('A', 100.0, dict(sight_in=-1.0), 'none'), ('B', 60.0, dict(), 'left'), ('B', 60.0, dict(), 'head30'),
+            ('H', 60.0, dict(), 'none'),           # rated supersonic, launched subsonic (powder sensitivity): no Mach row at all
             ('A', 100.0, dict(look_deg=20.0), 'none')]      # inclined sight line (needs the C02 zero-finder fix to zero at a coarse step)
     if tier == 'thorough':
         plan += [('A', 100.0, dict(sight_in=0.0), 'none'), ('A', 100.0, dict(look_deg=-20.0), 'two'), ('B', 60.0, dict(look_deg=10.0), 'none'),
